@@ -79,6 +79,22 @@ def regenerate(ctx):
         for line in open(path):
             k, n = line.split()
             rows.append(f'("{k}", {int(n)})')
+        # a retry decision that differs from the model's is reported with its input (the error class
+        # the first attempt fails with), not only as a broken `decide`
+        try:
+            import subprocess
+            ok, _ = ctx.lake_build(["oracle-c09"])
+            classes = [l.split()[0] for l in open(path)]
+            p = subprocess.run([ctx.oracle_bin()], input="".join(f"canretry {k}\n" for k in classes),
+                               stdout=subprocess.PIPE, text=True)
+            for line, want in zip(open(path), p.stdout.split()):
+                k, n = line.split()
+                if (int(n) == 2) != (want == "1") or int(n) not in (1, 2):
+                    ctx.violation("retry-decision-differs",
+                                  f"handlePull: first Pull attempt ends with class {k}, every later attempt would succeed",
+                                  f"real handlePull made {n} attempt(s); the model's canRetry says {'retry' if want == '1' else 'give up'}")
+        except Exception as ex:  # the Tie theorem still guards
+            ctx.notes.append("canretry comparison skipped: " + str(ex))
     else:
         ctx.notes.append("retry table driver failed: " + out[-400:])
     body = ("-- REGENERATED on every run by vlib/checks/c09.py from /repo's working tree. Do not edit.\n"
